@@ -282,7 +282,7 @@ Record emit_st := { e_tivt : Z; e_twalk : Z; e_twait : Z; e_ttrwalk : Z; e_ttrwa
 
 Definition emit_init : emit_st :=
   {| e_tivt := 0; e_twalk := 0; e_twait := 0; e_ttrwalk := 0; e_ttrwait := 0; e_tdist := 0;
-     e_tivd := 0; e_twalkd := 0; e_ttrd := -1; e_accd := 0; e_egrd := 0;
+     e_tivd := 0; e_twalkd := 0; e_ttrd := 0; e_accd := 0; e_egrd := 0;
      e_tarr := -1; e_ntr := -1; e_arr := -1; e_accw := -1; e_egrw := -1; e_accwait := -1;
      e_steps := [] |}.
 
